@@ -24,6 +24,17 @@ impl MockFn for TestFn {
     }
 }
 
+/// A method without inputs (zero-sized `Inputs`): its matcher is still a predicate (a guard may read outside state).
+pub struct TestFn0;
+impl MockFn for TestFn0 {
+    type Inputs<'i> = ();
+    type OutputKind = crate::output::Owning<u8>;
+    type AnswerFn = dyn (Fn(&Unimock) -> u8) + Send + Sync;
+    fn info() -> MockFnInfo {
+        MockFnInfo::new::<Self>().path(&["TestTrait", "z"])
+    }
+}
+
 /// A second, distinct method.
 pub struct TestFn2;
 impl MockFn for TestFn2 {
